@@ -468,7 +468,7 @@ def all_leaves(tier="thorough"):
             out.append(L("RQS", knots=knots, interval=iv))
     for d in (1, 2, 3):
         for cond in (None, 2):
-            for slope in (None, 0.1, 1.0):
+            for slope in (None, 0.1, 1.0, 3.0):  # 'a positive float': slopes above one need the scaled constraint
                 out.append(L("Planar", dim=d, cond=cond, slope=slope))
     for d in (2, 3):
         for cond in (None, 2):
@@ -499,6 +499,7 @@ def rep_leaves():
         L("BNAF", dim=2, cond=None, depth=1, bd=2), L("Loc", shape=[2, 1, 2]), L("AddCond", shape=[2, 3], cond=[]),
         L("Affine", shape=[3], bscale=True), L("Exp", shape=[1]),
         L("BNAF", dim=2, cond=2, depth=2, bd=2),  # conditional AND >= 2 hidden layers: the two copies of the layer loop must agree
+        L("Planar", dim=2, cond=None, slope=3.0),  # leaky slope above one (finding 12)
     ]
 
 
